@@ -719,9 +719,10 @@ fn gen_spec_lib(rng: &mut Rng) -> GdsLibrary {
     loop {
         let mut lib = gen_lib(rng, false, false);
         let mut ok = true;
-        // no trailing NULs (the grammar cannot tell padding from content), no -0.0
+        // a trailing NUL of an EVEN-length string cannot be told from padding — removed; an ODD-length string ending in
+        // NUL stays: its record is `…\0` + one NUL of padding, and only the padding may be stripped. No -0.0
         let fix = |s: &mut String| {
-            while s.ends_with('\0') {
+            while s.ends_with('\0') && s.len() % 2 == 0 {
                 s.pop();
             }
         };
@@ -1104,6 +1105,11 @@ pub fn oracle_c01(line: &str) -> String {
             // the destination is any `Write`: one that takes only a few bytes per call must receive the same stream
             _ if { let k = 1 + bytes.len() % 7; crate::gdsio::write_bytes_chunky(&lib, k).ok().as_ref() != Some(&bytes) } =>
                 format!("fail a destination that accepts {} bytes per write call received a different stream than a Vec", 1 + bytes.len() % 7),
+            // … and one that FAILS part-way (device full) must make `write` fail: success with a truncated stream at the
+            // destination is "bytes that do not read back"; a retry on a healthy destination then gives the stream again
+            _ if { let lim = [bytes.len() / 2, bytes.len() - 1, 0][bytes.len() % 3]; let (ok, got) = crate::gdsio::write_bytes_faulty(&lib, lim); ok && got != bytes } =>
+                format!("fail write() returned Ok although the destination failed after {} of {} bytes", [bytes.len() / 2, bytes.len() - 1, 0][bytes.len() % 3], bytes.len()),
+            _ if write_bytes(&lib).ok().as_ref() != Some(&bytes) => "fail a second write of the same library (after a failed one) gives a different stream".into(),
             Ok(Err(e)) => format!("fail written bytes do not read back: {}", &format!("{:?}", e)[..60.min(format!("{:?}", e).len())]),
             Ok(Ok(lib2)) => {
                 if lib2 == lib {
